@@ -25,7 +25,7 @@ TIMEOUT = {"quick": 900, "thorough": 7200}
 POOL: list = []
 
 
-def run_case(ctx, gd, q, via="outcomes"):
+def run_case(ctx, gd, q, via="outcomes", cards=None):
     from y0.algorithm.identify import Identification, Query, idc, identify_outcomes
     from y0.dsl import Variable
 
@@ -33,7 +33,8 @@ def run_case(ctx, gd, q, via="outcomes"):
     X = {Variable(x) for x in q["X"]}
     Y = {Variable(y) for y in q["Y"]}
     Z = {Variable(z) for z in q["Z"]}
-    kernel.LOG.reset_case({"graph": gd, "X": q["X"], "Y": q["Y"], "Z": q["Z"], "via": via})
+    kernel.LOG.reset_case({"graph": gd, "X": q["X"], "Y": q["Y"], "Z": q["Z"], "via": via,
+                           **({"cards": cards} if cards else {})})
     n0 = kernel.LOG.counters.get("eval:are_d_separated", 0)
     res = None
     try:
@@ -98,6 +99,19 @@ def run_shard(ctx):
             else:
                 pool[rng.randrange(len(pool))] = (gd, q)
     ctx.extras["feedback"] = fb
+    # wide graphs: a small core at the usual densities embedded in 10..14 nodes; the padding nodes are one-valued
+    # constants in the exact models (see C01), so every estimand is still evaluated
+    wide = {"cases": 0}
+    for _ in range(ctx.share({"quick": 500, "thorough": 8000}[ctx.tier])):
+        core = gg.random_admg(rng, rng.choice([3, 4, 4, 5]), hostile=rng.choice(gg.HOSTILE + ("bichain",)))
+        q = gq.random_query(rng, core, with_conditions=True, allow_empty_x=True)
+        if q is None or not q["Z"]:
+            continue
+        gd, pad = gg.embed_wide(core, rng, rng.randint(10, 14))
+        wide["cases"] += 1
+        run_case(ctx, gd, q, via=rng.choice(("outcomes", "identify", "from_parts", "from_expression")),
+                 cards={w: 1 for w in pad})
+    ctx.extras["wide_graphs"] = wide
     # edit histories: the same graph object is queried, edited in place and queried again
     from y0.algorithm.identify import identify_outcomes
     from y0.dsl import Variable
@@ -131,7 +145,7 @@ def replay(case):
 
     gd = case["graph"]
     gd = {"nodes": gd["nodes"], "di": gd["di"], "bi": gd["bi"]}
-    run_case(_C(), gd, {"X": case["X"], "Y": case["Y"], "Z": case["Z"]}, via=case.get("via", "outcomes"))
+    run_case(_C(), gd, {"X": case["X"], "Y": case["Y"], "Z": case["Z"]}, via=case.get("via", "outcomes"), cards=case.get("cards"))
 
 
 def install_for_suite():
